@@ -525,6 +525,7 @@ JANET_CORE_FN(cfun_buffer_slice,
               "[start, end). Indexes can also be negative, indicating indexing from the end of the "
               "end of the array. By default, `start` is 0 and `end` is the length of the buffer. "
               "Returns a new buffer.") {
+    janet_arity(argc, 1, 3);
     JanetByteView view = janet_getbytes(argv, 0);
     JanetRange range = janet_getslice(argc, argv);
     JanetBuffer *buffer = janet_buffer(range.end - range.start);
